@@ -447,53 +447,113 @@ def _isolate(binary, cases, cf, of, timeout, depth=0):
     return done + first + _isolate(binary, rest[1:], cf, of, timeout, depth + 1)
 
 
-def run_sharded(binary, cases, tag, workdir, timeout=1800):
-    """run `binary` over `cases` (list of lines) split into NPROC shards; returns list of output lines
-    (same length).  A shard whose process dies or hangs is re-run by bisection so that the responsible
-    case gets an `ABORT ...` line and the others their ordinary output."""
+STALL_IMPL = int(os.environ.get("VERIF_STALL", "120"))      # seconds without a new output line before a running implementation runner counts as hung
+
+
+def _read_lines(of):
+    try:
+        lines = open(of, errors="replace").read().split("\n")
+    except FileNotFoundError:
+        return []
+    if lines:
+        lines.pop()              # "" after the final newline, or an incomplete last line of a killed runner
+    return lines
+
+
+def run_sharded(binary, cases, tag, workdir, timeout=1800, stall=None):
+    """run `binary` over `cases` (list of lines) split into NPROC shards; returns list of output lines (same length).
+    Both runners write one line per case and flush it.  When a runner process dies (abort, stack overflow, kill) the
+    case it was working on -- the one after the last complete line -- gets an `ABORT ...` line and the rest of the shard
+    is run again.  The IMPLEMENTATION runner is also watched for stalls: no new line for `stall` seconds (default
+    STALL_IMPL) while the process is alive = a hang on that case (ABORT timeout).  When the overall budget `timeout`
+    runs out the unfinished cases get `RUNNER-FAIL rc=124 timeout` (a busy machine, not a verdict)."""
     n = len(cases)
     if n == 0:
         return []
     os.makedirs(workdir, exist_ok=True)
+    is_impl = os.path.abspath(binary) == os.path.abspath(HARNESS_BIN)
+    if stall is None and is_impl:
+        stall = STALL_IMPL
     nshard = min(NPROC, max(1, n // 50)) if n >= 100 else 1
     # interleave so that heavy cases spread over the shards
     shards = [cases[i::nshard] for i in range(nshard)]
-    procs = []
-    for i, sc in enumerate(shards):
-        cf = os.path.join(workdir, "%s.%d.cases" % (tag, i))
-        of = os.path.join(workdir, "%s.%d.out" % (tag, i))
-        with open(cf, "w") as f:
-            f.write("\n".join(sc) + "\n")
-        if os.path.exists(of):
-            os.remove(of)
-        procs.append((subprocess.Popen([binary, cf, of], stdout=subprocess.DEVNULL, stderr=subprocess.PIPE,
-                                       env=ENV), cf, of, sc))
-    outs = []
     deadline = time.time() + timeout
-    for p, cf, of, sc in procs:
-        k = len(sc)
+
+    def start(st):
+        with open(st["cf"], "w") as f:
+            f.write("\n".join(st["rest"]) + "\n")
+        if os.path.exists(st["of"]):
+            os.remove(st["of"])
+        st["p"] = subprocess.Popen([binary, st["cf"], st["of"]], stdout=subprocess.DEVNULL, stderr=subprocess.PIPE, env=ENV)
+        st["size"] = 0
+        st["grown"] = time.time()
+
+    sts = []
+    for i, sc in enumerate(shards):
+        st = {"cf": os.path.join(workdir, "%s.%d.cases" % (tag, i)), "of": os.path.join(workdir, "%s.%d.out" % (tag, i)),
+              "rest": list(sc), "out": [], "k": len(sc), "restarts": 0, "done": False}
+        start(st)
+        sts.append(st)
+
+    def finish(st, why):
+        """the process is gone (exited, died, or was killed for `why`): keep its complete lines; if cases are left,
+        blame the next one and run the remainder again"""
         try:
-            _, err = p.communicate(timeout=max(1, deadline - time.time()))
-            rc = p.returncode
-        except subprocess.TimeoutExpired:
-            p.kill()
-            p.communicate()
-            rc = 124
-            err = b"timeout"
-        lines = open(of).read().split("\n") if os.path.exists(of) else []
-        if lines:
-            lines.pop()          # "" after the final newline, or an incomplete line of a killed runner
-        if rc != 0 or len(lines) != k:
-            if rc == 124:
-                # a hang: isolating by re-running costs a timeout per probe; keep it short
-                lines = _isolate(binary, sc, cf + ".iso", of + ".iso", 20) if k <= 4000 else \
-                    lines[:k] + ["RUNNER-FAIL rc=124 timeout"] * (k - len(lines[:k]))
-            else:
-                lines = _isolate(binary, sc, cf + ".iso", of + ".iso", 120)
-        outs.append(lines)
+            err = st["p"].stderr.read() if st["p"].stderr else b""
+        except Exception:
+            err = b""
+        lines = _read_lines(st["of"])[:len(st["rest"])]
+        st["out"] += lines
+        left = st["rest"][len(lines):]
+        if not left:
+            st["done"] = True
+            return
+        if why == "budget":
+            st["out"] += ["RUNNER-FAIL rc=124 timeout"] * len(left)
+            st["done"] = True
+            return
+        if why is None:
+            why = "exit status %s" % st["p"].returncode
+        st["out"].append("ABORT %s %s" % (why, err.decode("utf-8", "replace")[-160:].replace("\n", " ")))
+        st["rest"] = left[1:]
+        st["restarts"] += 1
+        if not st["rest"]:
+            st["done"] = True
+        elif st["restarts"] > 40:
+            st["out"] += ["RUNNER-FAIL rc=%s after 40 restarts" % st["p"].returncode] * len(st["rest"])
+            st["done"] = True
+        else:
+            start(st)
+
+    while not all(st["done"] for st in sts):
+        now = time.time()
+        for st in sts:
+            if st["done"]:
+                continue
+            rc = st["p"].poll()
+            if rc is not None:
+                finish(st, None)
+                continue
+            try:
+                size = os.path.getsize(st["of"])
+            except OSError:
+                size = 0
+            if size != st["size"]:
+                st["size"], st["grown"] = size, now
+            if now > deadline:
+                st["p"].kill()
+                st["p"].wait()
+                finish(st, "budget")
+            elif stall is not None and now - st["grown"] > stall:
+                st["p"].kill()
+                st["p"].wait()
+                finish(st, "timeout")
+        time.sleep(0.2)
     res = [None] * n
-    for i, lines in enumerate(outs):
-        res[i::nshard] = lines
+    for i, st in enumerate(sts):
+        out = st["out"][:st["k"]]
+        out += ["RUNNER-FAIL rc=1 missing output"] * (st["k"] - len(out))
+        res[i::nshard] = out
     return res
 
 
